@@ -44,7 +44,11 @@ def post(scn, tr, a):
             if sched2.get("policy") == "replay":       # a replayed witness: the policy it was found under
                 sched2["policy"] = tr["sched"].get("orig_policy", "random")
             tr2 = run_case(scn2, sched2)
-            v["completes_without_async_flags"] = tr2["outcome"]["kind"] == "ok"
+            o2 = tr2["outcome"]
+            # "completes": returns, or is stopped by the same-time loop guard (C09 runs with small bounds) -
+            # anything but another hang
+            v["completes_without_async_flags"] = o2["kind"] == "ok" or (
+                o2.get("type") == "SimulationError" and "sub-step more than" in (o2.get("msg") or ""))
     return []
 
 
